@@ -1,0 +1,73 @@
+//go:build verif
+// +build verif
+
+package server
+
+// Verification hook for C22, multi-statement packets: one COM_QUERY text with
+// several statements run through the real handleQuery / doMultiStmts of a
+// VerifSession (namespace with support_multi_query, client with
+// CLIENT_MULTI_STATEMENTS); the recording fake connections of verif_c22.go
+// report which node class executed which statement. Add-only.
+
+import (
+	"fmt"
+	"io"
+	"net"
+	"time"
+
+	"github.com/XiaoMi/Gaea/mysql"
+	"github.com/XiaoMi/Gaea/util"
+)
+
+// verifDiscardConn is the client side nobody listens to: the intermediate
+// responses of doMultiStmts are written to it and dropped.
+type verifDiscardConn struct{}
+
+func (verifDiscardConn) Read(p []byte) (int, error)         { return 0, io.EOF }
+func (verifDiscardConn) Write(p []byte) (int, error)        { return len(p), nil }
+func (verifDiscardConn) Close() error                       { return nil }
+func (verifDiscardConn) LocalAddr() net.Addr                { return &net.TCPAddr{IP: net.IPv4(127, 0, 0, 1), Port: 2} }
+func (verifDiscardConn) RemoteAddr() net.Addr               { return &net.TCPAddr{IP: net.IPv4(127, 0, 0, 1), Port: 1} }
+func (verifDiscardConn) SetDeadline(t time.Time) error      { return nil }
+func (verifDiscardConn) SetReadDeadline(t time.Time) error  { return nil }
+func (verifDiscardConn) SetWriteDeadline(t time.Time) error { return nil }
+
+// ExecLog returns (node class, statement text) of every statement a backend
+// connection executed since the last ResetConns.
+func (vs *VerifSession) ExecLog() [][2]string {
+	vs.mu.Lock()
+	defer vs.mu.Unlock()
+	return append([][2]string{}, vs.execLog...)
+}
+
+// VerifHandleQueryMulti runs one COM_QUERY text through SessionExecutor.handleQuery
+// with multi-statement support switched on (namespace and client capability),
+// on a fresh request context, and reports the error if any. What was executed
+// where is in ExecLog.
+func (vs *VerifSession) VerifHandleQueryMulti(packet string) (err error) {
+	oldMulti := vs.ns.supportMultiQuery
+	vs.ns.supportMultiQuery = true
+	cc := vs.se.session
+	oldC := cc.c
+	// the client connection counts the bytes it writes: it needs a manager with (unnamed) statistics
+	cm := NewManager()
+	cm.statistics = verifLexNewStatistics()
+	c := NewClientConn(mysql.NewConn(verifDiscardConn{}), cm)
+	c.proxy = cc.proxy
+	c.capability = DefaultCapability | mysql.ClientMultiStatements
+	c.namespace = cc.namespace
+	// no command packet was read from this connection: nothing to give back to the buffer pool
+	c.hasRecycledReadPacket.Set(true)
+	cc.c = c
+	cc.closed.Store(false)
+	defer func() {
+		vs.ns.supportMultiQuery = oldMulti
+		cc.c = oldC
+		cc.continueConn = nil
+		if e := recover(); e != nil {
+			err = fmt.Errorf("panic: %v", e)
+		}
+	}()
+	_, err = vs.se.handleQuery(util.NewRequestContext(), packet)
+	return err
+}
